@@ -112,6 +112,38 @@ func c17Guard(c *Ctx) {
 					case *ssa.Store: // e.values = ...
 						key := name + ":write[" + gname + "]"
 						c.Check(held[r] == 2, "guard", key, r.Pos(), "assignment under Lock", "assignment to "+gname+" without holding "+g.lock.Name()+".Lock() on every path")
+						// the table is shared by all evaluations in flight: it may be created when
+						// absent, never replaced or dropped (that would erase other contexts' entries)
+						_, fresh := r.Val.(*ssa.MakeMap)
+						lazy := false
+						for d := r.Block(); d != nil && d.Idom() != nil; d = d.Idom() {
+							iff, ok := lastIf(d.Idom())
+							if !ok || len(d.Preds) != 1 {
+								continue
+							}
+							bo, ok := iff.Cond.(*ssa.BinOp)
+							if !ok || (bo.Op != token.EQL && bo.Op != token.NEQ) {
+								continue
+							}
+							for _, pr := range [][2]ssa.Value{{bo.X, bo.Y}, {bo.Y, bo.X}} {
+								if !isNilConst(pr[1]) {
+									continue
+								}
+								if ld, ok := pr[0].(*ssa.UnOp); ok {
+									if f2, ok := ld.X.(*ssa.FieldAddr); ok && fieldVarOf(f2.X.Type(), f2.Field) == g.field {
+										nilEdge := 0
+										if bo.Op == token.NEQ {
+											nilEdge = 1
+										}
+										if d.Idom().Succs[nilEdge] == d {
+											lazy = true
+										}
+									}
+								}
+							}
+						}
+						c.Check(fresh && lazy, "guard", name+":init["+gname+"]", r.Pos(), "created only when absent",
+							gname+" is assigned something other than a new map under a nil test: replacing or dropping the table erases the entries other evaluations in flight have stored in it")
 					case *ssa.UnOp: // load of the map
 						for _, use := range *r.Referrers() {
 							c17GuardUse(c, fn, g, gname, name, use, r, held)
